@@ -186,7 +186,7 @@ def record_canon(ptn, obj, cls, op, mode, tn=0, td=1, want_exact=True):
     tr = [dict(ev='begin', cls=cls, op=op, mode=mode, L=L, phys=phys_vector(cls, qd0), qD=qD0, tn=tn, td=td)]
     try:
         v_old = dense(obj, cls)
-        with wrap.patched(*_local_wrappers(ptn, obj, cls, tr)) as missing:
+        with wrap.patched(*_local_wrappers(ptn, obj, cls, tr), trace=tr) as missing:
             if op == 'ortho':
                 nrm = obj.orthonormalize(mode=mode)
                 scale = 1.0
